@@ -9,7 +9,7 @@ import itertools
 PROPERTY = "C11"
 LEVEL = "exploration"
 SHARDS = {"quick": 4, "thorough": 16}
-REQUIRED = ["ws-automaton", "call-model", "frame-accounting", "state-monotone", "denial-response", "overlapped-pairs", "websocket_session"]
+REQUIRED = ["ws-automaton", "call-model", "frame-accounting", "state-monotone", "denial-response", "overlapped-pairs", "websocket_session", "cancelled-receive"]
 RULE = ("Exhaustive call sequences over 15 wrapper operations (accept, accept(subprotocol), receive, receive_text, receive_bytes, one step of "
         "iter_text / iter_bytes, send_text, send_bytes, close, close(code), raw send of accept / send / close / foreign type) of length <=4 "
         "(thorough <=5) x every server script (connect; 0-3 frames text/bytes/both-keys; disconnect at every position or never), plus "
@@ -36,7 +36,9 @@ def scripts():
     B = lambda i: {"type": "websocket.receive", "bytes": b"b%d" % i}
     TB = lambda i: {"type": "websocket.receive", "text": None, "bytes": b"x%d" % i}
     BT = lambda i: {"type": "websocket.receive", "text": f"y{i}", "bytes": None}
-    shapes = [[], [T], [B], [T, B], [TB], [BT, T], [T, T, B], [B, TB, T]]
+    ET = lambda i: {"type": "websocket.receive", "text": ""}        # empty text frame
+    EB = lambda i: {"type": "websocket.receive", "bytes": b""}      # empty binary frame
+    shapes = [[], [T], [B], [T, B], [TB], [BT, T], [T, T, B], [B, TB, T], [ET, T], [EB, B], [T, ET, EB]]
     out = []
     for sh in shapes:
         frames = [f(i) for i, f in enumerate(sh)]
@@ -438,6 +440,85 @@ def session(ctx, calls, raises, events):
         ctx.count("session-forwarded-events-after-the-view-finished(judged by the automaton)")
 
 
+def cancelled_receive(ctx, variant, how, nframes, disconnect):
+    """a receive that is waiting for the client is cancelled (e.g. a wait_for timeout); the frames that arrive later must
+    still be returned in order, exactly once, and a later disconnect must still be seen"""
+    import asyncio
+
+    from baize import asgi
+    from vf import drivers
+    lp = drivers.VLoop(max_iterations=100_000)
+    out = {}
+
+    async def main():
+        q = asyncio.Queue()
+        forwarded = []
+
+        async def receive():
+            return await q.get()
+
+        async def send(m):
+            forwarded.append(m)
+        ws = asgi.WebSocket({"type": "websocket", "headers": [], "path": "/", "query_string": b""}, receive, send)
+        await q.put({"type": "websocket.connect"})
+        await ws.accept()
+        call = {"receive": ws.receive, "receive_text": ws.receive_text, "receive_bytes": ws.receive_bytes}[variant]
+        if how == "cancel":
+            t = asyncio.ensure_future(call())
+            for _ in range(3):
+                await asyncio.sleep(0)
+            t.cancel()
+            await asyncio.gather(t, return_exceptions=True)
+        else:
+            try:
+                await asyncio.wait_for(call(), 1.0)
+            except asyncio.TimeoutError:
+                pass
+        key = "bytes" if variant == "receive_bytes" else "text"
+        frames = [{"type": "websocket.receive", key: (b"f%d" % i if key == "bytes" else f"f{i}")} for i in range(nframes)]
+        for f in frames:
+            await q.put(f)
+        if disconnect:
+            await q.put({"type": "websocket.disconnect", "code": 1001})
+        got = []
+        for f in frames:
+            r = await asyncio.wait_for(call(), 5.0)
+            got.append(r if variant != "receive" else r.get(key))
+        out["got"], out["want"] = got, [f[key] for f in frames]
+        if disconnect:
+            try:
+                r = await asyncio.wait_for(call(), 5.0)
+                out["disc"] = r.get("type") if isinstance(r, dict) else "returned " + repr(r)
+            except asgi.WebSocketDisconnect:
+                out["disc"] = "websocket.disconnect"
+            out["state"] = ws.client_state.name
+        await asyncio.sleep(0)
+        out["pending"] = len([t for t in asyncio.all_tasks() if t is not asyncio.current_task() and not t.done()])
+    case = {"scenario": "pending receive cancelled, frames arrive afterwards", "call": variant, "how": how, "frames": nframes, "disconnect": disconnect}
+    ctx.mon("cancelled-receive")
+    try:
+        lp.run_until_complete(asyncio.wait_for(main(), 1000))
+    except asyncio.TimeoutError:
+        ctx.violation("cancelled-receive|later-receive-never-returns", case, repr(out))
+        return
+    except Exception as e:
+        ctx.violation(f"cancelled-receive|{type(e).__name__}", case, repr(e)[:200])
+        return
+    finally:
+        try:
+            for t in asyncio.all_tasks(lp):
+                t.cancel()
+        except Exception:
+            pass
+        lp.close()
+    if out["got"] != out["want"]:
+        ctx.violation("cancelled-receive|frames-lost-or-reordered", case, f"{out['got']!r} vs {out['want']!r}")
+    if disconnect and (out.get("disc") != "websocket.disconnect" or out.get("state") != "DISCONNECTED"):
+        ctx.violation("cancelled-receive|disconnect-not-seen", case, repr(out))
+    if out.get("pending"):
+        ctx.violation("cancelled-receive|orphan-task-left-pending", case, str(out["pending"]))
+
+
 def denial(ctx, rng):
     """WebsocketDenialResponse / request_response on a websocket scope"""
     from baize import asgi
@@ -533,6 +614,13 @@ def run(ctx):
                         session(ctx, calls, raises, events)
                         ctx.case_enum(n >= 2)
         ctx.sample("websocket_session", {"calls": ["accept", "close", "send_text"], "view_raises": True})
+        for variant in ("receive", "receive_text", "receive_bytes"):
+            for how in ("cancel", "timeout"):
+                for nframes in (0, 1, 3):
+                    for disconnect in (False, True):
+                        cancelled_receive(ctx, variant, how, nframes, disconnect)
+                        ctx.case_enum(True)
+        ctx.sample("cancelled-receive", {"call": "receive_text", "how": "timeout", "frames": 3, "disconnect": True})
         # http scope through the websocket shortcut -> 404
         from baize import asgi
         from vf import drivers
@@ -545,9 +633,14 @@ def run(ctx):
     else:
         ctx.mon("denial-response", 0)
         ctx.mon("websocket_session", 0)
+        ctx.mon("cancelled-receive", 0)
 
 
 def replay(ctx, case):
+    if case.get("scenario", "").startswith("pending receive cancelled"):
+        cancelled_receive(ctx, case["call"], case["how"], case["frames"], case["disconnect"])
+        ctx.case(1)
+        return
     if case.get("shortcut") == "websocket_session":
         for tag, events in SCRIPTS[:6]:
             if [e["type"] for e in events] == case["script"]:
